@@ -798,6 +798,11 @@ func ruleBitDecomp(cx *Ctx, typ string) []Obligation {
 		}
 		return []Obligation{good(key, desc, r.site(rec))}
 	}
+	for _, rec := range r.Recs {
+		if rec.Kind == "tobin-unconstrained" {
+			return []Obligation{bad(key, desc, "the decomposition is called with an option other than WithNbDigits (e.g. WithUnconstrainedOutputs): the bits are not constrained to be boolean, so the range check accepts every value", r.site(rec))}
+		}
+	}
 	return []Obligation{bad(key, desc, "no must-executed binary decomposition of the checked value with the requested width", P.FnName(fn)+" "+P.Pos(fn.Pos()))}
 }
 
